@@ -10,7 +10,7 @@ CLAIMED = {
                 ref="5/C15, 4.4"),
 }
 ENV_TECH = "TLA+ model of the key protocol (Envelope.tla, PlusCal) checked by TLC; TLC-generated behaviours replayed on real factories; recorded real traces judged by the TLA+ monitor EnvelopeObs.tla under TLC"
-ENV_NOTE = "bounded (<=2 processes, <=2 partitions, small clock, <=6 generated keys); fake metastore/KMS stand for real backends; virtual clock via build overlay; time bounds judged against operation start; AES-GCM trusted"
+ENV_NOTE = "bounded (<=2 processes - 3 in the C14 race family -, <=2 partitions, small clock, <=6 generated keys); fake metastore/KMS stand for real backends; virtual clock via build overlay; time bounds judged against operation start; AES-GCM trusted"
 def env(text, ref):
     return dict(engine="envelope", technique=ENV_TECH, text=text, note=ENV_NOTE, ref=ref)
 CLAIMED.update({
